@@ -1,7 +1,11 @@
 """C40 — DataPacketReceiver good/bad reporting (luna/gateware/usb/usb3/link/data.py).
 
 The Lean model is the gateware after the repairs of F15 / F16 / F17 / F15b (see notes/C40.md).  On a
-tree without them the monitor fails with `dpr-second-verdict`, `dpr-wrong-verdict`, … (the defects)."""
+tree without them the monitor fails with `dpr-second-verdict`, `dpr-wrong-verdict`, … (the defects).
+
+One case = ONE elaborated receiver (elaboration costs ~5 s, the simulation itself ~1 k cycles/s) fed with a
+long stream of packet SEQUENCES, followed on the same receiver by the same valid words without the invalid ones
+(the "twin").  The word-level monitor judges every packet of the whole stream."""
 from harness.common.framework import Case
 from harness.common.rng import Rng
 from harness.common import sim, usbref
@@ -14,12 +18,21 @@ REQUIRED_THEOREMS = ["exactly_one_verdict_per_packet", "good_iff_crcs_valid", "p
                      "independent_of_invalid_words", "hinv_reachable", "check_header_units", "dpp_start_header_valid",
                      "verdict_implies_header_crcs_valid", "good_iff_crcs_valid_from_reset",
                      "good_iff_crc_valid_zero_length_from_reset"]
-RULE = ("cases = word streams of data packets (header + DPP) with payload lengths 0..16, 1020..1024 and random "
-        "(every residue mod 4), each either clean or with a corrupted CRC32 (1 bit / random), CRC16, CRC5, a "
-        "non-DATA type, a K symbol in a payload word (first / middle / last), or no DPPSTART after the header; "
-        "separated by nothing (back to back), idle words or junk; invalid words inserted with probability "
-        "0 / 15 / 60 % and, in the 'sweep' cases, exactly one invalid word at every word position of a packet in "
-        "turn; every case is also simulated without its invalid words and the two verdict/payload sequences are compared")
+RULE = ("one case = one receiver instance fed with a long word stream of packet SEQUENCES (quick: 16 cases of ~3-5 k cycles). "
+        "(a) pair matrix, all 468 combinations spread over every 16 cases: leader = {K symbol in the LAST payload word at every "
+        "valid byte position for every length residue mod 4 (packet continued or cut right there) | payload aborted with "
+        "EDB EDB EDB EPF in the last word, every residue | K symbol or abort framing in an earlier payload word, every residue | good packet, every residue | bad-CRC32 packet, every residue} x "
+        "follower = {ZLP, ZLP with bad CRC32, good 1 / 2 / 3 byte packet, good 4..24 byte packet} x separation = {next HPSTART in "
+        "the very next word | idle valid words | invalid words only}, optionally wrapped in further good packets; "
+        "(b) random sequences of 2..6 packets, lengths 0..16 in rotation, 1020..1024, random: good | CRC32 corrupted (1 bit / "
+        "random / zeroed) | CRC16 | CRC5 | non-DATA type | no DPPSTART (also with the next HPSTART directly behind the header) | "
+        "K symbol in a payload word (first / middle / last, any valid lane) | abort framing mid-payload | payload shorter or "
+        "longer than the length field | K flag on a CRC byte | END framing omitted; separated by nothing, idle words, junk or "
+        "invalid words; (c) a sweep block: one packet shape repeated with exactly one (or two) invalid word(s) before every "
+        "word position in turn; (d) one 1020..1024 byte packet per case.  Invalid words are inserted with probability "
+        "0 / 15 / 50 / 30 % per word (by case).  The valid words of the whole stream are then replayed WITHOUT the invalid "
+        "words on the same receiver (not reset) and the two verdict/payload sequences are compared; every packet of both "
+        "passes is judged by the word-level monitor (exactly one verdict at the right word, right polarity, payload bytes)")
 ASSUMPTIONS = ["payload length field 0..1024 (legal USB3 DPP); the word stream is the aligned, descrambled "
                "receive stream: 4 symbols per word with per-symbol ctrl flags and a valid flag"]
 PARTIAL = ("independence of invalid words is a theorem inside the payload (independent_of_invalid_words) and along the header "
@@ -28,39 +41,43 @@ PARTIAL = ("independence of invalid words is a theorem inside the payload (indep
            "after DWORD 3 decides which following word is swallowed (notes/C40.md, observation; in legal traffic that word is "
            "the rejected header's own DPPSTART, and such a header never gets a verdict: verdict_implies_header_crcs_valid)")
 
-KINDS = [(50, "good"), (8, "crc32-bit"), (6, "crc32-rand"), (6, "crc16"), (6, "crc5"), (4, "type"),
-         (5, "k-first"), (5, "k-last"), (4, "k-mid"), (4, "no-dpp"), (2, "crc32-zero")]
+KINDS = [(38, "good"), (8, "crc32-bit"), (5, "crc32-rand"), (2, "crc32-zero"), (6, "crc16"), (6, "crc5"), (4, "type"),
+         (5, "no-dpp"), (10, "k"), (6, "abort"), (3, "short"), (3, "long"), (4, "k-crc")]
+NCYCLE = 16          # the pair matrix is spread over this many consecutive cases
+IDLE = [1, 0, 0]
 
 
 def gen_cases(tier, rng):
-    # the DUT holds two CRC-32 networks: elaboration costs seconds and pysim runs it at a few hundred cycles/s
-    n = {"quick": 30, "widen": 90}.get(tier, 200)
-    out = []
-    for k in range(n):
-        out.append({"seed": rng.u64(), "k": k, "npk": 6 if tier == "quick" else 10, "twin": int(k % 3 == 1 or k % 6 == 3)})
-    return out
+    # the DUT holds two CRC-32 networks: elaboration costs ~5 s per instance, so few, long cases
+    n, nrand = {"quick": (16, 9), "widen": (48, 9)}.get(tier, (240, 14))
+    off = rng.below(NCYCLE)
+    return [{"seed": rng.u64(), "k": k, "slot": (k + off) % NCYCLE, "nrand": nrand} for k in range(n)]
 
 
-def pick_length(rng, k, j):
+# ------------------------------------------------------------------------------------------------ packets
+
+def pick_length(rng, j):
     r = rng.below(100)
-    if r < 55:
-        return (k + j) % 17                       # 0..16: every residue, every small size, in rotation
-    if r < 60 or (j == 2 and k % 3 == 0):
+    if r < 50:
+        return j % 17                             # 0..16: every residue, every small size, in rotation
+    if r < 53:
         return rng.choice([1020, 1021, 1022, 1023, 1024])
     if r < 75:
         return rng.choice([0, 1, 2, 3, 4, 5])
     return rng.range(0, 120)
 
 
-def make_packet(rng, k, j):
-    """-> (words [(data, ctrl)], meta) for one packet item."""
-    kind = rng.weighted(KINDS)
-    L = pick_length(rng, k, j)
-    if kind in ("k-first", "k-last", "k-mid") and L == 0:
+def make_packet(rng, spec):
+    """spec: {"kind", "len", + optional "kword", "klane", "cut", "end", "bare", "actual"}
+    -> (words [(data, ctrl)], meta) for one packet item."""
+    kind, L = spec["kind"], spec["len"]
+    if kind in ("k", "abort") and L == 0:
         kind = "good"
+    npay = (L + 3) // 4
     payload = rng.bytes(L) if not rng.chance(5) else [rng.choice([0, 0xFF])] * L
+    delayed = int(rng.chance(70)) if kind == "abort" else int(rng.chance(5))
     lcw = U.link_control_word(seq=rng.below(8), reserved=rng.choice([0, rng.below(8)]), hub_depth=rng.choice([0, rng.below(8)]),
-                              delayed=0, deferred=rng.below(2))
+                              delayed=delayed, deferred=rng.below(2))
     dw0, dw1, dw2 = U.data_header(L, addr=rng.below(128), seq=rng.below(32), ep=rng.below(16), direction=rng.below(2),
                                   eob=rng.below(2), setup=rng.below(2), route=rng.choice([0, rng.bits(20)]),
                                   stream_id=rng.choice([0, rng.bits(16)]), pp=rng.below(2))
@@ -77,77 +94,265 @@ def make_packet(rng, k, j):
         dw0 = (dw0 & ~0x1F) | rng.choice([0b00100, 0b00000, 0b01100, 0b01001, 0b11000])
     words = U.header_words(dw0, dw1, dw2, lcw, c16, c5)
     dw3 = words[4][0]
+    end = spec.get("end", 1)
+    bare = spec.get("bare", 0)
+    swallow = None          # this item swallows the HPSTART of the next one: "strict" (only when adjacent) / "wait"
+    kword = None
+    verdict, vword = "bad", None
+    dpp = []
     if kind == "no-dpp":
-        words.append((rng.choice([0, rng.bits(32), U.HPSTART[0] ^ 1]), rng.choice([0, 0, 0xF])))
-        dpp = []
+        if bare:
+            swallow = "wait"          # CHECK_HEADER (CRCs fine) waits for the next valid word and consumes it
+        else:
+            words.append((rng.choice([0, rng.bits(32), U.HPSTART[0] ^ 1, U.DPPSTART[0]]), rng.choice([0, 0, 0xF, 0xE])))
+            if words[-1] == U.DPPSTART:
+                words[-1] = (U.DPPSTART[0], 0x7)
+    elif kind in ("crc16", "crc5") and bare:
+        swallow = "strict"            # CHECK_HEADER rejects in the cycle after DW3, whatever word that cycle carries
+    elif kind == "abort":
+        # the sender gives up: `kword` complete payload words, then EDB EDB EDB EPF
+        kword = spec.get("kword", npay - 1)
+        dpp = U.dpp_words(payload[:4 * kword], end=False)[:1 + kword] + [U.DPPABORT]
+        vword = 6 + kword
+    elif kind == "short":
+        # fewer payload bytes than the length field says: CRC-32 and END framing arrive inside the announced payload
+        P = spec.get("actual", rng.below(L)) if L else 0
+        if L == 0:
+            kind, verdict = "good", "good"
+            dpp = U.dpp_words(payload)
+        else:
+            dpp = U.dpp_words(payload[:P])
+            vword = 6 + ((P + 4) // 4 if L > P + 4 else (L + 3) // 4)
+    elif kind == "long":
+        # more payload bytes than the length field says: payload bytes L..L+3 are taken for the CRC-32
+        more = payload + rng.bytes(spec.get("extra", rng.range(4, 12)))
+        dpp = U.dpp_words(more)
+        if sum(b << (8 * n) for n, b in enumerate(more[L:L + 4])) == usbref.usb3_crc32(payload):
+            verdict = "good"
     else:
-        dpp = U.dpp_words(payload, crc32_xor=c32)
+        dpp = U.dpp_words(payload, crc32_xor=c32, end=bool(end))
         if kind == "crc32-zero":
             # replace the CRC field by zero (what an empty-CRC comparison would accept)
             syms = [(b, 0) for b in payload] + [(0, 0)] * 4 + [(U.END, 1)] * 3 + [(U.EPF, 1)]
             dpp = [U.DPPSTART] + U.pack_symbols(syms)
             if usbref.usb3_crc32(payload) == 0:
                 kind = "good"
-    npay = (L + 3) // 4
-    kword = None
-    if kind.startswith("k-"):
-        kword = {"k-first": 0, "k-last": npay - 1, "k-mid": rng.below(npay)}[kind]
-        lanes = min(4, L - 4 * kword)
-        lane = rng.below(lanes)
-        d, c = dpp[1 + kword]
-        dpp[1 + kword] = (d, c | (1 << lane))
+        if kind == "k":
+            kword = spec.get("kword", npay - 1)
+            lanes = min(4, L - 4 * kword)
+            lane = spec.get("klane", rng.below(lanes))
+            d, c = dpp[1 + kword]
+            dpp[1 + kword] = (d, c | (1 << lane))
+            vword = 6 + kword
+            if spec.get("cut"):
+                dpp = dpp[:2 + kword]           # the packet stops right behind the word with the K symbol
+        elif kind == "k-crc":
+            # a K flag on a CRC byte (never on a payload byte): the gateware compares data only
+            cands = [(npay, b) for b in range(4)] if L % 4 == 0 else \
+                    [(npay - 1, b) for b in range(L % 4, 4)] + [(npay, b) for b in range(L % 4)]
+            w, b = rng.choice(cands)
+            d, c = dpp[1 + w]
+            dpp[1 + w] = (d, c | (1 << b))
+            verdict = "good"
+        if kind == "good":
+            verdict = "good"
     words += dpp
     hdr_ok = kind not in ("crc16", "crc5", "type", "no-dpp")
     if not hdr_ok:
         verdict, vword = None, None
-    elif kword is not None:
-        verdict, vword = "bad", 6 + kword
-    else:
-        verdict = "good" if kind in ("good",) else "bad"
+    elif vword is None:
         vword = 6 + npay                      # the word holding the last CRC byte
-    meta = {"kind": kind, "len": L, "payload": payload, "verdict": verdict, "vword": vword,
-            "hdr": (dw0, dw1, dw2, dw3), "nwords": len(words), "kword": kword}
+    meta = {"kind": kind + ("-bare" if swallow else ""), "len": L, "payload": payload, "verdict": verdict, "vword": vword,
+            "hdr": (dw0, dw1, dw2, dw3), "nwords": len(words), "kword": kword, "swallow": swallow}
     return words, meta
 
 
-def make_stimulus(rng, k, npk):
-    """-> (rows [valid,data,ctrl], packets meta with word->row index)"""
-    mode = k % 6
-    gap_p = [0, 15, 60, 0, 15, 0][mode]
-    sweep = mode == 3
-    rows, metas = [], []
-    rows.append([rng.below(2), rng.bits(32), 0])
-    for j in range(npk):
-        words, meta = make_packet(rng, k, j)
-        # separation from the previous packet
-        sep = rng.below(4)
-        if sep == 1:
-            rows.extend([[1, 0, 0]] * rng.range(1, 3))
-        elif sep == 2:
-            rows.extend([[1, rng.bits(32), rng.choice([0, 0, rng.below(16)])] for _ in range(rng.range(1, 3))])
-        elif sep == 3:
-            rows.extend([[0, rng.bits(32), rng.below(16)] for _ in range(rng.range(1, 4))])
-        meta["start"] = len(rows)
-        hole = (k // 6 + j) % (len(words)) if sweep else None    # one invalid word before word #hole
+# ------------------------------------------------------------------------------------------------ sequences
+
+def matrix():
+    """all (leader, follower, separation) combinations of the pair matrix, in a fixed order."""
+    leaders = []
+    for r in (1, 2, 3, 0):
+        for lane in range(r or 4):
+            leaders.append(("k", r, lane))
+        leaders.append(("abort", r, 0))
+        leaders.append(("kmid", r, 0))
+        leaders.append(("good", r, 0))
+        leaders.append(("crc32-bit", r, 0))
+    out = []
+    for li, ld in enumerate(leaders):
+        for fi, fo in enumerate(("zlp", "zlp-bad", "b1", "b2", "b3", "norm")):
+            for si, sp in enumerate(("direct", "idle", "inval")):
+                out.append((ld, fo, sp))
+    return out
+
+
+def separation(rng, how):
+    """rows between two items."""
+    if how == "direct":
+        return []
+    if how == "idle":
+        return [list(IDLE) for _ in range(rng.range(1, 3))]
+    if how == "junk":
+        return [[1, rng.bits(32), rng.choice([0, 0, rng.below(16)])] for _ in range(rng.range(1, 3))]
+    if how == "inval":
+        return [[0, rng.choice([rng.bits(32), U.HPSTART[0], U.DPPSTART[0], 0]), rng.choice([0, 0xF, rng.below(16)])]
+                for _ in range(rng.range(1, 4))]
+    return separation(rng, "inval") + separation(rng, "idle") + separation(rng, "inval")     # "mixed"
+
+
+class Stream:
+    """accumulates rows [valid, data, ctrl] and the generator's own bookkeeping per packet."""
+
+    def __init__(self, rng, gap_p):
+        self.rng, self.gap_p = rng, gap_p
+        self.rows, self.metas = [], []
+        self.swallow = None
+
+    def sep(self, how):
+        if self.swallow:
+            # the previous item consumes the next valid word: keep it the HPSTART of the next item
+            how = "direct" if self.swallow == "strict" else self.rng.choice(["direct", "inval"])
+        self.rows.extend(separation(self.rng, how))
+
+    def packet(self, spec, hole=None, gaps=True):
+        """append one packet; `hole` = exactly one or two invalid words before word #hole and none elsewhere."""
+        rng = self.rng
+        words, meta = make_packet(rng, spec)
+        strict = self.swallow == "strict"
+        if self.swallow:
+            # its HPSTART is consumed by the previous item: the receiver never enters this packet
+            meta["verdict"], meta["vword"], meta["swallow"] = None, None, None
+            meta["kind"] = "swallowed"
+        self.swallow = meta["swallow"]
+        meta["start"] = len(self.rows)
         pos = []
         for wi, (d, c) in enumerate(words):
             n_inv = 0
-            if sweep and wi == hole and wi > 0:
-                n_inv = rng.choice([1, 1, 2])
-            elif gap_p and wi > 0:
-                while rng.chance(gap_p) and n_inv < 6:
+            if hole is not None:
+                if wi == hole and wi > 0:
+                    n_inv = rng.choice([1, 1, 2])
+            elif self.gap_p and gaps and (wi > 0 or not strict):
+                while rng.chance(self.gap_p) and n_inv < 6:
                     n_inv += 1
             for _ in range(n_inv):
                 # invalid words carry confusing data: the next word, framing, random
-                rows.append([0, rng.choice([d, U.HPSTART[0], U.DPPSTART[0], rng.bits(32), 0]), rng.choice([c, 0xF, 0])])
-            pos.append(len(rows))
-            rows.append([1, d, c])
+                self.rows.append([0, rng.choice([d, U.HPSTART[0], U.DPPSTART[0], rng.bits(32), 0]), rng.choice([c, 0xF, 0])])
+            pos.append(len(self.rows))
+            self.rows.append([1, d, c])
         meta["rows"] = pos
-        meta["end"] = len(rows)
-        metas.append(meta)
-    rows.extend([[1, 0, 0]] * 3)
-    return rows, metas
+        meta["end"] = len(self.rows)
+        self.metas.append(meta)
+        return meta
 
+    def close(self):
+        """a bare item at the very end swallows an idle word, nothing else."""
+        self.swallow = None
+        self.rows.extend([list(IDLE) for _ in range(4)])
+
+
+def small_good(rng):
+    return {"kind": "good", "len": rng.choice([0, 1, 2, 3, 4, 5, 6, 7, 8, rng.range(0, 20)])}
+
+
+def add_pair(st, rng, combo):
+    (lk, r, lane), fo, sp = combo
+    nb = rng.choice([0, 0, 1, 1, 2, rng.range(0, 5)])          # complete payload words in front of the last one
+    L = 4 * nb + (r or 4)
+    lead = {"kind": lk, "len": L}
+    if lk == "kmid":
+        # K symbol / abort framing in a payload word that is NOT the last one
+        nb = max(nb, 1)
+        L = 4 * nb + (r or 4)
+        lead = {"kind": rng.choice(["k", "abort"]), "len": L, "kword": rng.below(nb), "klane": rng.below(4),
+                "cut": int(sp != "idle" or rng.chance(30))}
+    elif lk == "k":
+        # cut: the packet stops right behind the word with the K symbol (else its CRC / END words follow)
+        lead.update(kword=nb, klane=lane, cut=int(sp != "idle" or rng.chance(30)))
+    elif lk == "abort":
+        lead.update(kword=nb)
+    else:
+        # "direct" / "inval": nothing valid between the CRC word (the verdict) and the next HPSTART, so no END framing;
+        # back-to-back behind END framing is what the random sequences and the wrapping packets do
+        lead.update(end=int(sp == "idle"))
+    foll = {"zlp": {"kind": "good", "len": 0}, "zlp-bad": {"kind": rng.choice(["crc32-bit", "crc32-rand"]), "len": 0},
+            "b1": {"kind": "good", "len": 1}, "b2": {"kind": "good", "len": 2}, "b3": {"kind": "good", "len": 3},
+            "norm": {"kind": "good", "len": rng.range(4, 24)}}[fo]
+    st.sep(rng.choice(["direct", "idle", "inval", "mixed"]))
+    if rng.chance(35):
+        st.packet(small_good(rng))
+        st.sep(rng.choice(["direct", "idle", "inval"]))
+    st.packet(lead)
+    st.sep(sp)
+    st.packet(foll)
+    if rng.chance(50):
+        st.sep(rng.choice(["direct", "idle", "inval"]))
+        st.packet(small_good(rng) if rng.chance(70) else {"kind": "good", "len": 0})
+
+
+def add_random_sequence(st, rng, j0, n):
+    for j in range(n):
+        kind = rng.weighted(KINDS)
+        L = pick_length(rng, j0 + j)
+        spec = {"kind": kind, "len": L}
+        npay = (L + 3) // 4
+        if kind == "k" and L:
+            spec.update(kword=rng.choice([0, npay - 1, npay - 1, rng.below(npay)]), cut=int(rng.chance(25)))
+        elif kind == "abort" and L:
+            spec.update(kword=rng.choice([0, npay - 1, rng.below(npay)]))
+        elif kind in ("no-dpp", "crc16", "crc5"):
+            spec.update(bare=int(rng.chance(40)))
+        elif kind in ("good", "crc32-bit", "crc32-rand"):
+            spec.update(end=int(not rng.chance(8)))
+        st.sep(rng.choice(["direct", "direct", "idle", "junk", "inval", "mixed"]))
+        st.packet(spec)
+
+
+def add_sweep(st, rng, L, kind):
+    """the same packet shape with one invalid word (or two) before each of its word positions in turn."""
+    probe, _ = make_packet(Rng(1), {"kind": kind, "len": L})
+    for hole in range(1, len(probe)):
+        st.sep(rng.choice(["direct", "idle"]))
+        st.packet({"kind": kind, "len": L}, hole=hole)
+
+
+def make_stimulus(rng, slot, nrand):
+    """-> (rows [valid,data,ctrl], packets meta with word->row index, length of the first pass)"""
+    gap_p = [0, 15, 50, 30][slot % 4]
+    st = Stream(rng, gap_p)
+    st.rows.append([rng.below(2), rng.bits(32), 0])
+    combos = [c for n, c in enumerate(matrix()) if n % NCYCLE == slot]
+    parts = [("pair", c) for c in combos] + [("rand", None)] * nrand + [("sweep", None), ("big", None)]
+    parts = rng.shuffle(parts)
+    j = rng.below(17)
+    for what, arg in parts:
+        if what == "pair":
+            add_pair(st, rng, arg)
+        elif what == "rand":
+            n = rng.range(2, 6)
+            add_random_sequence(st, rng, j, n)
+            j += n
+        elif what == "sweep":
+            add_sweep(st, rng, [0, 1, 2, 3, 4, 5, 6, 7, 8][slot % 9] if rng.chance(75) else rng.range(9, 14),
+                      "good" if rng.chance(60) else "crc32-bit")
+        else:
+            L = 1020 + (slot + rng.below(2)) % 5
+            npay = (L + 3) // 4
+            kind = rng.weighted([(50, "good"), (20, "crc32-bit"), (20, "k"), (10, "abort")])
+            spec = {"kind": kind, "len": L}
+            if kind in ("k", "abort"):
+                spec["kword"] = rng.choice([npay - 1, npay - 1, rng.below(npay)])
+            st.sep(rng.choice(["direct", "idle", "inval"]))
+            st.packet(spec)
+            st.sep(rng.choice(["direct", "idle", "inval"]))
+            st.packet({"kind": "good", "len": rng.choice([0, 0, 1, 2, 3, 7])})
+    st.close()
+    first = len(st.rows)
+    rows = st.rows + [list(r) for r in st.rows if r[0] & 1] + [list(IDLE)] * 3
+    return rows, st.metas, first
+
+
+# ------------------------------------------------------------------------------------------------ simulation
 
 def simulate(stim):
     from amaranth import Cat
@@ -159,32 +364,36 @@ def simulate(stim):
     return sim.run_cycles(dut, [dut.sink.valid, dut.sink.data, dut.sink.ctrl], outs, stim, domain="ss")
 
 
-def observed_events(rows):
-    """[(kind, payload bytes since the previous verdict)] — the receiver's externally visible result."""
+def observed_events(rows, base=0):
+    """[(cycle, kind, payload bytes since the previous verdict)] — the receiver's externally visible result."""
     ev, cur = [], []
-    for r in rows:
+    for t, r in enumerate(rows):
         v, d = r[5], r[6]
         cur.extend((d >> (8 * i)) & 0xFF for i in range(4) if (v >> i) & 1)
         if r[9] or r[10]:
-            ev.append(("good" if r[9] else "") + ("bad" if r[10] else ""))
-            ev.append(tuple(cur))
+            ev.append((base + t, ("good" if r[9] else "") + ("bad" if r[10] else ""), tuple(cur)))
             cur = []
+    if cur:
+        ev.append((base + len(rows), "", tuple(cur)))
     return ev
 
 
-def run_case(desc):
-    fails, tags = [], set()
-    metas = None
-    if desc.get("stimulus"):
-        stim = desc["stimulus"]
-    else:
-        stim, metas = make_stimulus(Rng(desc["seed"]), desc.get("k", 0), desc.get("npk", 10))
-    rows = simulate(stim)
+# ------------------------------------------------------------------------------------------------ the monitor
 
-    # ---- generic monitor (also for replays without meta data): parse the valid words per the framing rules
+def expectation(stim):
+    """The property, from the valid words alone: parse them by the framing rules, recompute all CRCs.
+    -> (expected {cycle: verdict}, pay_expected {cycle: payload bytes}, tags, records per judged packet)"""
+    tags = set()
     vw = [(t, r[1] & 0xFFFFFFFF, r[2] & 0xF) for t, r in enumerate(stim) if r[0] & 1]
     expected = {}      # cycle -> verdict
     pay_expected = {}  # cycle of verdict -> payload bytes
+    recs = []          # (cycle of HPSTART, cycle of verdict, L, path)
+
+    def stall(a, state):
+        # invalid words in front of valid word #a: the receiver sat in `state` meanwhile
+        if a < len(vw) and vw[a][0] > vw[a - 1][0] + 1:
+            tags.add("stall-" + state)
+
     i = 0
     while i < len(vw):
         t, d, c = vw[i]
@@ -192,38 +401,67 @@ def run_case(desc):
             i += 1
             continue
         h = [vw[i + 1 + n][1] for n in range(4)]
+        tags.add("st-RECEIVE_DW0")
+        stall(i + 1, "RECEIVE_DW0")
         if (h[0] & 0x1F) != 0b01000:
+            tags.add("exit-dw0-not-data")
             i += 2              # the receiver is back to waiting after DW0
             continue
+        for n in (1, 2, 3):
+            stall(i + 1 + n, "RECEIVE_DW%d" % n)
+        tags.add("st-RECEIVE_DW1..3")
         ok16 = usbref.usb3_crc16(h[:3]) == (h[3] & 0xFFFF)
         ok5 = usbref.usb3_crc5((h[3] >> 16) & 0x7FF) == (h[3] >> 27)
         if i + 5 >= len(vw):
             break
+        tags.add("st-CHECK_HEADER")
         if not (ok16 and ok5):
             # CHECK_HEADER rejects in the cycle after DW3 without looking at the word of that cycle
-            i += 6 if vw[i + 5][0] == vw[i + 4][0] + 1 else 5
+            tags.add("exit-hdr-crc16" if not ok16 else "exit-hdr-crc5")
+            adjacent = vw[i + 5][0] == vw[i + 4][0] + 1
+            if adjacent and (vw[i + 5][1], vw[i + 5][2]) == U.HPSTART:
+                tags.add("exit-hdr-crc-swallows-hpstart")
+            i += 6 if adjacent else 5
             continue
+        stall(i + 5, "CHECK_HEADER")
         if (vw[i + 5][1], vw[i + 5][2]) != U.DPPSTART:
+            tags.add("exit-hdr-no-dppstart")
+            if (vw[i + 5][1], vw[i + 5][2]) == U.HPSTART:
+                tags.add("exit-hdr-no-dppstart-swallows-hpstart")
             i += 6              # the word that should have been DPPSTART is consumed by CHECK_HEADER
             continue
         L = (h[1] >> 16) & 0x7FF
         npay = (L + 3) // 4
         j = i + 6
-        payload, verdict_at, verdict = [], None, None
+        payload, verdict_at, verdict, path = [], None, None, None
+        if L:
+            tags.add("st-RECEIVE_PAYLOAD")
+        else:
+            tags.add("st-CHECK_CRC32-zero-length")
         for n in range(npay):
             if j + n >= len(vw):
                 break
+            stall(j + n, "RECEIVE_PAYLOAD")
             tt, dd, cc = vw[j + n]
             lanes = min(4, L - 4 * n)
             if cc & ((1 << lanes) - 1):
                 verdict_at, verdict = tt, "bad"
                 payload.extend((dd >> (8 * b)) & 0xFF for b in range(lanes))
+                low = (cc & ((1 << lanes) - 1))
+                if n == npay - 1:
+                    path = "klast"
+                    tags.add("exit-payload-k-last-len%%4=%d-lanes=%x" % (L % 4, low))
+                else:
+                    path = "kmid"
+                    tags.add("exit-payload-k-first" if n == 0 else "exit-payload-k-middle")
                 j = j + n + 1
                 break
             payload.extend((dd >> (8 * b)) & 0xFF for b in range(lanes))
         else:
             j = j + npay
             if j < len(vw):
+                tags.add("st-CHECK_CRC32")
+                stall(j, "CHECK_CRC32")
                 tt, dd, cc = vw[j]
                 tail = []
                 if L % 4:
@@ -232,18 +470,49 @@ def run_case(desc):
                 crcb = tail + [(dd >> (8 * b)) & 0xFF for b in range(4 - len(tail))]
                 field = sum(b << (8 * n) for n, b in enumerate(crcb))
                 verdict_at, verdict = tt, ("good" if field == usbref.usb3_crc32(payload) else "bad")
+                path = verdict
+                tags.add("exit-crc-%s-len%%4=%d" % (verdict, L % 4))
                 j += 1
         if verdict_at is not None:
             expected[verdict_at] = verdict
             pay_expected[verdict_at] = payload
+            recs.append((t, verdict_at, L, path))
             tags.add("len%%4=%d" % (L % 4))
             tags.add("verdict-" + verdict)
             if L == 0:
                 tags.add("zlp-" + verdict)
             if L >= 1020:
                 tags.add("len>=1020")
+            if L == 1024:
+                tags.add("len=1024")
         i = j
+    # how the judged packets follow each other (what the receiver carries over from one packet to the next)
+    valid_at = [r[0] & 1 for r in stim]
+    for (t0, v0, L0, p0), (t1, v1, L1, p1) in zip(recs, recs[1:]):
+        between = valid_at[v0 + 1:t1]
+        how = "direct" if not between else ("inval" if not any(between) else "words")
+        nxt = "zlp" if L1 == 0 else ("1-3B" if L1 < 4 else "norm")
+        tags.add("seq-%s>%s" % (p0, nxt))
+        if L0 % 4 and nxt == "zlp":
+            tags.add("seq-%s-len%%4=%d>zlp-%s" % (p0, L0 % 4, how))
+        elif how == "direct":
+            tags.add("seq-%s>%s-direct" % (p0, nxt))
+    return expected, pay_expected, tags, recs
+
+
+def run_case(desc):
+    fails, tags = [], set()
+    metas, first = None, None
+    if desc.get("stimulus"):
+        stim = desc["stimulus"]
+    else:
+        stim, metas, first = make_stimulus(Rng(desc["seed"]), desc.get("slot", 0), desc.get("nrand", 9))
+    rows = simulate(stim)
+
+    # ---- generic monitor (also for replays without meta data): parse the valid words per the framing rules
+    expected, pay_expected, tags, _recs = expectation(stim)
     collected = []
+    last_verdict = None
     for t, r in enumerate(rows):
         good, bad = r[9], r[10]
         v, d = r[5], r[6]
@@ -254,7 +523,10 @@ def run_case(desc):
         want = expected.get(t, "")
         if got != want and not fails:
             if got and not want:
-                sig = "dpr-second-verdict" if any(tt < t and t - tt < 2100 for tt in expected) else "dpr-spurious-verdict"
+                # a verdict nobody asked for: a second one for the packet just judged, unless a new packet has begun
+                second = last_verdict is not None and not any(
+                    (x[0] & 1) and (x[1] & 0xFFFFFFFF, x[2] & 0xF) == U.HPSTART for x in stim[last_verdict + 1:t])
+                sig = "dpr-second-verdict" if second else "dpr-spurious-verdict"
             elif want and not got:
                 sig = "dpr-missing-verdict"
             else:
@@ -263,31 +535,36 @@ def run_case(desc):
                           "cycle %d: packet_good=%d packet_bad=%d, but the framing and CRCs of the received words require %s"
                           % (t, good, bad, want or "no verdict here")})
         if got:
+            last_verdict = t
             if want and tuple(collected) != tuple(pay_expected[t]) and not fails:
                 fails.append({"cycle": t, "sig": "dpr-payload", "what":
                               "cycle %d: payload stream delivered %d bytes %s…, the packet carries %d bytes %s…"
                               % (t, len(collected), collected[:8], len(pay_expected[t]), pay_expected[t][:8])})
             collected = []
+    if collected and metas is not None and not fails:
+        fails.append({"cycle": len(rows) - 1, "sig": "dpr-payload", "what":
+                      "%d payload bytes delivered after the last verdict, belonging to no packet" % len(collected)})
     # ---- cross-check of the generic expectation against the generator's own bookkeeping
     if metas is not None:
         for m in metas:
             tags.add("kind-" + m["kind"])
-            if m["verdict"] is not None:
-                tv = m["rows"][m["vword"]]
-                if expected.get(tv) != m["verdict"] and not fails:
-                    fails.append({"cycle": tv, "sig": "dpr-harness-selfcheck", "what":
-                                  "generator says %s at cycle %d for %s, word-level monitor says %s"
-                                  % (m["verdict"], tv, m["kind"], expected.get(tv))})
-        # ---- independence of invalid words: same words without the invalid ones
-        if desc.get("twin", 1) and any(r[0] == 0 for r in stim):
+            inside = [t for t in expected if m["rows"][0] <= t < m["end"]]
+            want = [] if m["verdict"] is None else [m["rows"][m["vword"]]]
+            if (inside != want or (want and expected[want[0]] != m["verdict"])) and not fails:
+                fails.append({"cycle": m["rows"][0], "sig": "dpr-harness-selfcheck", "what":
+                              "generator: %s packet (length %d) at cycles %d..%d gets %s at %s; word-level monitor: %s"
+                              % (m["kind"], m["len"], m["rows"][0], m["end"] - 1, m["verdict"], want,
+                                 [(t, expected[t]) for t in inside])})
+        # ---- independence of invalid words: the same valid words again, without the invalid ones (second pass)
+        if any(r[0] == 0 for r in stim[:first]):
             tags.add("with-invalid-words")
-            twin = [r for r in stim if r[0] & 1]
-            ev_a, ev_b = observed_events(rows), observed_events(simulate(twin))
-            if ev_a != ev_b and not fails:
-                n = next((x for x in range(min(len(ev_a), len(ev_b))) if ev_a[x] != ev_b[x]), min(len(ev_a), len(ev_b)))
-                fails.append({"cycle": 0, "sig": "dpr-invalid-words-matter", "what":
-                              "verdict/payload sequence differs from the same stream without its invalid words at event %d: %s vs %s"
-                              % (n, str(ev_a[n:n + 2])[:200], str(ev_b[n:n + 2])[:200])})
+        ev_a, ev_b = observed_events(rows[:first]), observed_events(rows[first:], first)
+        if [e[1:] for e in ev_a] != [e[1:] for e in ev_b] and not fails:
+            n = next((x for x in range(min(len(ev_a), len(ev_b))) if ev_a[x][1:] != ev_b[x][1:]), min(len(ev_a), len(ev_b)))
+            cyc = ev_b[n][0] if n < len(ev_b) else len(rows) - 1
+            fails.append({"cycle": cyc, "sig": "dpr-invalid-words-matter", "what":
+                          "verdict/payload sequence differs from the same stream without its invalid words at event %d: %s vs %s"
+                          % (n, str(ev_a[n:n + 1])[:200], str(ev_b[n:n + 1])[:200])})
     return Case([0], stim, rows, fails, sorted(tags), desc, ["valid", "data", "ctrl"],
                 ["hdr.dw0", "hdr.dw1", "hdr.dw2", "hdr.dw3", "new_header", "source.valid", "source.data", "first",
                  "last", "packet_good", "packet_bad"])
